@@ -24,10 +24,12 @@ type c12RetryArg struct {
 }
 
 type c12RetryRes struct {
-	Requests int
-	Outcome  string // "Reopened" | "Abandoned" | "GaveUp" (the child died)
-	Discard  string
-	Streams  bool // after a successful reopen: a document sent on the new stream reached the consumer
+	Requests  int
+	Outcome   string // "Reopened" | "Abandoned" | "GaveUp" (the child died)
+	Discard   string
+	Streams   bool     // after a successful reopen: a document sent on the new stream reached the consumer
+	ReqSeqs   []uint64 // the positions the attempts asked for
+	LateAcked bool     // event 2 was acknowledged (and tracked) 150 ms after the first attempt
 }
 
 func init() {
@@ -39,6 +41,23 @@ func init() {
 		d.cfg.Dcp.Group.Membership.RebalanceDelay = 10 * time.Minute // the window outlasts the retries
 		d.execStart(SOp{Kind: "open", Sv: sv})
 		d.Client.TakeOpens()
+		// vBucket 0: events 1 and 2 shown, 1 acknowledged; 2 is acknowledged while the loop waits for its second attempt
+		lateAcked := false
+		var lateCtx *models.ListenerContext
+		if ob := d.Client.Observer(0); ob != nil {
+			d.deliver(ob, 0, &SEv{Kind: "marker", S: 0, E: 5})
+			for seq := uint64(1); seq <= 2; seq++ {
+				n := d.Cons.Count()
+				d.deliver(ob, 0, &SEv{Kind: "mut", Item: &SItem{Seq: seq, Cas: 1, Key: []byte(fmt.Sprintf("k%d", seq)), Rest: seq}})
+				if ctx := d.Cons.Ctx(n); ctx != nil {
+					if seq == 1 {
+						ctx.Ack()
+					} else {
+						lateCtx = ctx
+					}
+				}
+			}
+		}
 
 		var mu sync.Mutex
 		attempts := 0
@@ -60,6 +79,18 @@ func init() {
 				okAt = i
 			}
 			mu.Unlock()
+			if i == 0 && lateCtx != nil && a.CloseAt != 1 {
+				go func() {
+					time.Sleep(150 * time.Millisecond)
+					lateCtx.Ack()
+					offs, _, _ := d.Stream.GetOffsets()
+					if o, ok := offs.Load(0); ok && o.SeqNo == 2 {
+						mu.Lock()
+						lateAcked = true
+						mu.Unlock()
+					}
+				}()
+			}
 			fmt.Printf("REQ %d\n", i)
 			if a.CloseAt == i+1 {
 				closer <- struct{}{}
@@ -121,7 +152,13 @@ func init() {
 		}
 		mu.Lock()
 		res.Requests = attempts
+		res.LateAcked = lateAcked
 		mu.Unlock()
+		for _, oc := range d.Client.TakeOpens() {
+			if oc.VbID == 0 {
+				res.ReqSeqs = append(res.ReqSeqs, oc.Offset.SeqNo)
+			}
+		}
 		if res.Outcome == "Reopened" {
 			// the vBucket is streamed again: a document on the new stream reaches the consumer
 			if ob := d.Client.Observer(0); ob != nil {
@@ -217,6 +254,8 @@ func runC12Retry(c *Ctx) {
 			c.Violate("reopen-retries-after-close", fmt.Sprintf("the stream was closed (%s) before attempt %d of the reopen of vBucket 0 but %d requests were issued", a.By, a.CloseAt+1, requests), rep)
 		case outcome == "Reopened" && requests != a.Fails+1:
 			c.Violate("reopen-request-count", fmt.Sprintf("the reopen succeeded at request %d but %d requests were issued", a.Fails+1, requests), rep)
+		case o.res != nil && open && o.res.LateAcked && len(o.res.ReqSeqs) >= 2 && (o.res.ReqSeqs[0] != 1 || o.res.ReqSeqs[len(o.res.ReqSeqs)-1] != 2):
+			c.Violate("reopen-wrong-position", fmt.Sprintf("event 1 of the vBucket was settled when its stream ended, event 2 was acknowledged while the reopen was waiting for its second attempt: the attempts asked for %v (the latest settled position at each attempt: 1, then 2)", o.res.ReqSeqs), rep)
 		case outcome == "Reopened" && !o.res.Streams:
 			c.Violate("reopened-not-streaming", "the vBucket was reopened but a document sent on the new stream did not reach the consumer", rep)
 		}
